@@ -227,3 +227,35 @@ func verifAnswerVsScan() {
 // where the channel tries the zone / region / memory queues in turn), and the consumer's
 // outstanding count equals the messages it holds.
 func VerifC02_PumpHistoryExclusive() { verifPumpHistory() }
+
+// Every delivery restarts the message's delivery clock: a message object that was delivered
+// before (requeued, timed out) and is delivered again gets a new delivery instant, so the TOUCH
+// cap (delivery + max-msg-timeout) of the new holder is measured from ITS delivery.
+func VerifC02_RedeliveryRestartsTheDeliveryClock() {
+	verifrt.Atomic(func() {
+		o := verifOpts()
+		verifConcreteIDs, verifIDSeq = true, 0
+		st := verifNewChan(o, "ch")
+		cl := st.addClient(1)
+		m := verifMsg("m", 1)
+		old := verifrt.Int64("earlier-delivery")
+		verifrt.Assume(old >= 0 && old <= 1500000000000000000)
+		if verifrt.Bool("delivered-before") {
+			m.deliveryTS = time.Unix(0, old)
+			m.Attempts = 1
+		}
+		st.c.StartInFlightTimeout(m, cl.ID, cl.MsgTimeout)
+		now := verifrt.LastNow()
+		verifrt.Assert(m.deliveryTS.UnixNano() == now, "delivery-instant-is-this-delivery")
+		verifrt.Assert(m.pri == now+int64(cl.MsgTimeout) && m.clientID == cl.ID, "deadline-is-this-delivery-plus-msg-timeout")
+		// TOUCH by the new holder: capped relative to this delivery
+		id := m.ID
+		p := &protocolV2{nsqd: st.n}
+		cl.InFlightCount = 1
+		_, err := p.TOUCH(cl, [][]byte{[]byte("TOUCH"), id[:]})
+		verifrt.Assert(err == nil, "touch-by-the-new-holder-is-accepted")
+		verifrt.Assert(m.pri >= now && m.pri <= now+int64(o.MaxMsgTimeout), "touched-deadline-within-max-msg-timeout-of-this-delivery")
+		verifrt.Assert(m.pri >= now+int64(cl.MsgTimeout) || m.pri == now+int64(o.MaxMsgTimeout), "touch-never-moves-the-deadline-before-the-untouched-one")
+		verifrt.Reach("redelivery", m.Attempts == 1)
+	})
+}
